@@ -63,6 +63,9 @@ func genSpecC06(c *Ctx, n int, mix string, k int) *rSpec {
 }
 
 func runC06(c *Ctx) {
+	if c06StressOnly(c) {
+		return
+	}
 	// exhaustive tie of the registry-offer discriminator (2 x 256)
 	var lines []string
 	for w := 0; w < 2; w++ {
@@ -115,6 +118,8 @@ func runC06(c *Ctx) {
 	}
 	// slow writes: T3 counts from the moment the primary was written, not from the call / the registration
 	c06SlowWrites(c)
+	// volume: duplicated replies and reply-vs-cancel / reply-vs-T3 ties, unique token per transaction (c06_stress.go)
+	c06Stress(c)
 	// directed: one sender per peer behaviour
 	for pk := 0; pk < pkNone; pk++ {
 		if pk == pkCtrl {
